@@ -86,6 +86,11 @@ class KillSem(Semantics):
         if isinstance(node, tuple):
             return state
         s = state
+        if s.vars.get(self.proc) == frozenset([None]) and isinstance(node, ast.AST) and not isinstance(node, (ast.If, ast.While)):
+            uses = [n for n in ast.walk(node) if (isinstance(n, ast.Attribute) and dotted(n.value) == self.proc)
+                    or (isinstance(n, ast.Call) and any(dotted(a) == self.proc for a in n.args))]
+            if uses:
+                s = s.with_fact("deref_none", getattr(node, "lineno", 0)).note(node, "uses the process although none was started")
         for c in _calls(node):
             sig = self._is_group_signal(c)
             if sig is not None:
@@ -340,11 +345,18 @@ def run(ctx):
                              fi.where, witness(o.state, fi))
                 break
 
+    from .localpool import rule_enqueue_registers
+    rule_enqueue_registers(ctx, r3)
     und = [o for o in outs if o.state.facts.get("wait_undrained")]
     r4.check(not und, construct + "::drained", "the task's output pipes are read while it runs (communicate(), not a bare wait())",
              f"the coroutine awaits proc.wait() (line {und[0].state.facts.get('wait_undrained') if und else ''}) while the stdout/stderr pipes are not being read: a script that prints more "
              "than the pipe buffer blocks on write and never exits (or is killed by its time limit although it would have finished), and its output is lost",
              fi.where, witness(und[0].state, fi) if und else None)
+
+    wrong = [o for o in outs if o.state.facts.get("state_while_running") not in (None, ("RUNNING",))]
+    r2.check(not wrong, construct + "::running", "while its process runs the task's state is RUNNING",
+             f"while the process runs the task's state is {wrong[0].state.facts.get('state_while_running') if wrong else ''}, not RUNNING: `gwf status` shows a task that is executing as "
+             "submitted (or not at all)", fi.where, witness(wrong[0].state, fi) if wrong else None)
 
     # ---------------- R5 kill on abort paths
     r5 = ctx.rule("R5", "cancelled and timed-out tasks run the kill sequence on their process", min_instances=2)
@@ -378,6 +390,10 @@ def run(ctx):
                  "the kill sequence can finish without ever sending SIGKILL to the process group (e.g. when the shell itself already exited): a child that ignores "
                  "the catchable signal keeps running after the task is reported cancelled/killed and its core is released", gk.where,
                  witness(soft[0].state, gk) if soft else None)
+    dn = [o for o in kouts if o.state.facts.get("deref_none")]
+    r6.check(not dn, gcon + "::no-process", "with no process started (cancelled while waiting for dependencies or a core) the kill sequence does nothing",
+             f"the kill sequence uses `{ksem.proc}` (line {dn[0].state.facts.get('deref_none') if dn else ''}) on a path where no process was started: cancelling a task that is still "
+             "waiting raises inside the cancellation handler and the task never reaches a final state", gk.where, witness(dn[0].state, gk) if dn else None)
     notreaped = [o for o in kouts if o.state.vars.get(ksem.proc, frozenset(["PROC"])) != frozenset([None]) and not o.state.facts.get("reaped")]
     r6.check(not notreaped, gcon + "::wait", "every exit with a process awaits proc.wait()",
              "the kill sequence can return without awaiting proc.wait(): the core is released while the process may still run", gk.where,
